@@ -99,9 +99,9 @@ type step struct {
 	// Mutated: Enforce changed the caller's Objects slice; MutatedTo is what it reads now
 	Mutated   bool        `json:"mutated"`
 	MutatedTo [][2]string `json:"mutated_to"`
-	V   view   `json:"v"`
-	CV  view   `json:"cv"`
-	RP  []rps  `json:"rp"`
+	V         view        `json:"v"`
+	CV        view        `json:"cv"`
+	RP        []rps       `json:"rp"`
 }
 
 type result struct {
